@@ -104,7 +104,8 @@ async def _check(case, ctx: Ctx) -> CaseResult:
     spec = case['spec']
     async with SCase(case, ctx) as sc:
         if sc.rejected:
-            return CaseResult([], False, ['rejected:' + sc.rejected])
+            return CaseResult(sc.crash_violations('C05'), False,
+                              ['rejected:' + sc.rejected])
         sim = sc.sim
         viol = []
         classes = set()
